@@ -14,6 +14,11 @@ import configparser
 
 import toml
 
+try:
+    import tomllib
+except ImportError:
+    tomllib = None  # type: ignore
+
 from bumpver import pathlib as pl
 
 from . import utils
@@ -253,8 +258,18 @@ def _parse_cfg(cfg_buffer: typ.IO[str]) -> RawConfig:
     return raw_cfg
 
 
+def _load_toml(cfg_buffer: typ.IO[str]) -> typ.Any:
+    # NOTE: The toml package predates TOML 1.0. It loses escaped quotes at the start
+    #   of a string in an array (patterns!), fails for a string that starts with a comma
+    #   and rejects arrays of mixed types (PEP 735 dependency groups in pyproject.toml).
+    if tomllib is None:
+        return toml.load(cfg_buffer)
+    else:
+        return tomllib.loads(cfg_buffer.read())
+
+
 def _parse_toml(cfg_buffer: typ.IO[str]) -> RawConfig:
-    raw_full_cfg: typ.Any = toml.load(cfg_buffer)
+    raw_full_cfg: typ.Any = _load_toml(cfg_buffer)
     raw_cfg     : RawConfig
 
     if 'tool' in raw_full_cfg and 'bumpver' in raw_full_cfg['tool']:
